@@ -2,7 +2,7 @@
 # tools/lane.sh <N> <command…> — run a command in "lane" N: a private mount namespace in which /repo and /verif are
 # full private copies (made under /tmp/lanes/N, build output included, mtimes preserved so nothing rebuilds), so that
 # several seeded / benign patches can be trialled at once without touching the real /repo or each other's verdicts.
-# The copies are re-synchronised with the real trees (sources only) at every call.  Evidence written in a lane stays
+# The copies are re-synchronised at every call: /repo from its working tree, /verif from its last commit.  Evidence written in a lane stays
 # in the lane: committed evidence only ever comes from /verif run against /repo itself.
 N="$1"; shift
 L=/tmp/lanes/$N
@@ -14,9 +14,14 @@ if [ ! -d $L/verif/harness ]; then
   mkdir -p $L/verif
   rsync -a --exclude /work --exclude /replays /verif/ $L/verif/
 fi
-# bring sources up to date (build output kept; mtimes preserved)
+# bring sources up to date (build output kept). /repo: the working tree as it is. /verif: the last COMMIT (other
+# work may be half-edited in the working tree); only files whose content changed are touched, so cargo and lake
+# rebuild only what changed.
 rsync -a --delete --exclude /target /repo/ $L/repo/
-rsync -a --delete --exclude /work --exclude /replays --exclude '/harness/target*' --exclude /lean/.lake \
-      --exclude /.lock --exclude /.lock-seed --exclude /.lock-lake /verif/ $L/verif/
+EXP=/tmp/lanes/_export.$$
+rm -rf $EXP && mkdir -p $EXP && git -C /verif archive HEAD | tar -x -C $EXP
+rsync -rlpc --delete --exclude /work --exclude /replays --exclude '/harness/target*' --exclude /lean/.lake \
+      --exclude /.lock --exclude /.lock-seed --exclude /.lock-lake $EXP/ $L/verif/
+rm -rf $EXP
 mkdir -p $L/verif/work
 exec unshare -m sh -c "mount --bind $L/repo /repo && mount --bind $L/verif /verif && cd /verif && exec \"\$@\"" lane "$@"
